@@ -1107,12 +1107,12 @@ class Arm(Robot):
         T10 = self.FKLink(theta, 0).inv()
 
         term_1 = T10.adjoint() @ np.hstack((np.zeros(3), -grav))
-        term_2 = np.zeros((5*n))
+        term_2 = np.zeros((6*(n-1)))
         vel_dot_base = np.hstack((term_1, term_2))
 
         Ttipend = self.FK(theta).inv() @ self.FKLink(theta, n - 1)
 
-        Ftip = np.vstack((np.zeros((5*n, 1)), Ttipend.adjoint().conj().T @ end_effector_wrench))
+        Ftip = np.vstack((np.zeros((6*(n-1), 1)), Ttipend.adjoint().conj().T @ end_effector_wrench))
 
         joint_axes = np.zeros((6*n, 6*n))
         Vbase = np.zeros((6*n, 1))
@@ -1124,7 +1124,7 @@ class Arm(Robot):
             index_4 = (i-1)*6+6
             joint_axes[index_1:index_2,index_3:index_4] = Ti_im1.adjoint()
         L = ling.inv(np.identity((6*n))-joint_axes)
-        V = L @ (A @ theta_dot.reshape((6,1)) + Vbase)
+        V = L @ (A @ theta_dot.reshape((n,1)) + Vbase)
         #Checkpoint 2
         adV = np.zeros((6*n, 6*n))
         adAthd = np.zeros((6*n, 6*n))
@@ -1138,7 +1138,7 @@ class Arm(Robot):
         #disp(adAthd)
         #         L * (A * thetadotdot                  - adAthd * W          * V - adAthd * Vbase           + Vdotbase)
         #vel_dot = L @ (A @ theta_dot_dot.reshape((6,1)) - adAthd @ joint_axes @ V - adAthd @ Vbase.flatten() + vel_dot_base)
-        t1 = A @ theta_dot_dot.reshape((6,1))
+        t1 = A @ theta_dot_dot.reshape((n,1))
         t2 = adAthd @ joint_axes @ V
         t3 = adAthd @ Vbase
         vel_dot = L @ (t1 - t2 - t3 + vel_dot_base.reshape((len(vel_dot_base),1)))
